@@ -1,3 +1,4 @@
+use std::cmp::Ordering;
 use std::hash::{Hasher, Hash};
 use std::convert::TryFrom;
 use std::collections::{BTreeSet};
@@ -59,13 +60,19 @@ impl<'a, T: ColumnProvider> ExpressionExecutionEngine<'a, T> {
                 }
 
                 if !left_value.is_null() && !right_value.is_null() {
+                    let ordering = match (&left_value, &right_value) {
+                        (Value::Int(x), Value::Float(y)) => compare_int_float(*x, y.0),
+                        (Value::Float(x), Value::Int(y)) => compare_int_float(*y, x.0).reverse(),
+                        _ => left_value.cmp(&right_value)
+                    };
+
                     match operator {
-                        CompareOperator::Equal => Ok(Value::Bool(left_value == right_value)),
-                        CompareOperator::NotEqual => Ok(Value::Bool(left_value != right_value)),
-                        CompareOperator::GreaterThan => Ok(Value::Bool(left_value > right_value)),
-                        CompareOperator::GreaterThanOrEqual => Ok(Value::Bool(left_value >= right_value)),
-                        CompareOperator::LessThan => Ok(Value::Bool(left_value < right_value)),
-                        CompareOperator::LessThanOrEqual => Ok(Value::Bool(left_value <= right_value))
+                        CompareOperator::Equal => Ok(Value::Bool(ordering == Ordering::Equal)),
+                        CompareOperator::NotEqual => Ok(Value::Bool(ordering != Ordering::Equal)),
+                        CompareOperator::GreaterThan => Ok(Value::Bool(ordering == Ordering::Greater)),
+                        CompareOperator::GreaterThanOrEqual => Ok(Value::Bool(ordering != Ordering::Less)),
+                        CompareOperator::LessThan => Ok(Value::Bool(ordering == Ordering::Less)),
+                        CompareOperator::LessThanOrEqual => Ok(Value::Bool(ordering != Ordering::Greater))
                     }
                 } else {
                     Ok(Value::Bool(false))
@@ -643,6 +650,21 @@ impl std::fmt::Display for EvaluationError {
     }
 }
 
+
+// Compares an INT with a REAL by numeric value, without rounding the INT (NaN is greater than every number)
+fn compare_int_float(x: i64, y: f64) -> Ordering {
+    if y.is_nan() || y >= 9223372036854775808.0 {
+        Ordering::Less
+    } else if y < -9223372036854775808.0 {
+        Ordering::Greater
+    } else {
+        let y_integer = y.trunc();
+        match x.cmp(&(y_integer as i64)) {
+            Ordering::Equal => 0.0.partial_cmp(&(y - y_integer)).unwrap_or(Ordering::Equal),
+            ordering => ordering
+        }
+    }
+}
 
 pub fn unique_values(values: &mut Vec<Value>) {
     let unique_values = std::mem::take(values);
